@@ -27,3 +27,10 @@ check(
     "Hypothesis property-based testing vs. reference glob model; snapshot differencing of real CLI runs",
     "DESIGN.md §3 C05",
 )
+check(
+    "C19", "exploration",
+    "Generated-input search on the public pipeline API with a real execution context: text files x safe regex family x finding sets through RegexTransformerPipeline / SastRegexTransformerPipeline against a reference model (re.sub on targeted lines, identity elsewhere, one change per edited line with the findings covering it, dry-run untouched, strict diff round-trip); recursive XML documents written by an own serialiser x attribute maps / new elements x finding modes through XMLTransformerPipeline, before/after compared as canonical trees built by lxml/libxml2 (independent of the expat/SAX stack), expected tree = original with exactly the targeted edits. Exploration fits: documents and edits are unbounded; oracles are a reference model and an independent parser.",
+    "Trusted: lxml/libxml2 as the judge of XML content; weak reading of 'insignificant whitespace' (whitespace-only text dropped, text chunks stripped at markup boundaries); XML declaration and empty-element spelling not compared; regex patterns never match line terminators and both readings of 'line' (with/without terminator) are accepted; findings with columns only on elements preceded by ASCII text.",
+    "Hypothesis property-based testing vs. reference edit model; differential XML parsing (libxml2 vs expat); strict unified-diff applier",
+    "DESIGN.md §3 C19",
+)
